@@ -76,6 +76,11 @@ class P(F.P):
         else:
             pats = [self.eat()]
         self.eat("|")
+        if self.peek() == "{":
+            bs, bt = self.block()
+            if bs or bt is None:
+                raise XlateError("a closure body with statements is not understood")
+            return ("closure", pats, bt)
         return ("closure", pats, self.expr())
 
     def block(self):
@@ -107,6 +112,11 @@ class P(F.P):
                 e = self.expr()
                 self.eat(";")
                 stmts.append(("let", name, e))
+            elif v == "return":
+                self.eat("return")
+                e = self.expr()
+                self.eat(";")
+                stmts.append(("return", e))
             elif v == "for":
                 self.eat("for")
                 var = self.eat()
